@@ -66,18 +66,38 @@ Qed.
 Print Assumptions C16_f_eq_call.
 
 (* ... over call HISTORIES on one object: whatever sequence of obj(x, T) (array passed by reference or
-   copied), obj.f(x, T, *obj.args) and in-place rewrites of the caller's arrays came before, every answer is
-   the state-free function of the CURRENT content of the array and T (so obj(x, T) = obj.f(x, T, *args) at every
-   step, no hidden state), and the caller's arrays are changed only by the caller's own writes *)
-Theorem C16_f_eq_call_history : forall A (K : KOps A) arrays ops,
-  (forall a, snd (run_hist (gamma_UNIFAC K) (mkH arrays a) ops) = spec_hist (gamma_UNIFAC K) a arrays ops /\
-     h_arrays (fst (run_hist (gamma_UNIFAC K) (mkH arrays a) ops)) =
-     fold_left (fun arr o => match o with HSet r v => upd arr r v | _ => arr end) ops arrays) /\
-  (forall a, snd (run_hist (gamma_modified_UNIFAC K) (mkH arrays a) ops) = spec_hist (gamma_modified_UNIFAC K) a arrays ops /\
-     h_arrays (fst (run_hist (gamma_modified_UNIFAC K) (mkH arrays a) ops)) =
-     fold_left (fun arr o => match o with HSet r v => upd arr r v | _ => arr end) ops arrays).
-Proof. intros A K arrays ops. split; intros a; apply (wrapper_history K). Qed.
+   copied), obj.f(x, T, *obj.args), in-place rewrites of the caller's composition arrays and in-place rewrites of
+   arrays that earlier calls RETURNED came before, the object behaves like the state-free specification spec_hist:
+   every answer is the function gamma_of of the CURRENT content of the array and T (so obj(x, T) =
+   obj.f(x, T, *args) at every step, no hidden state, no sharing of returned arrays), the caller's arrays change
+   only by the caller's own writes, and a returned array changes only when the caller writes to it *)
+Theorem C16_f_eq_call_history : forall A (K : KOps A) arrays results ops,
+  (forall a, let S := spec_hist (gamma_UNIFAC K) a (arrays, results) ops in
+             let R := run_hist (gamma_UNIFAC K) (mkH arrays results a) ops in
+             snd R = snd S /\ h_arrays (fst R) = fst (fst S) /\ h_results (fst R) = snd (fst S)) /\
+  (forall a, let S := spec_hist (gamma_modified_UNIFAC K) a (arrays, results) ops in
+             let R := run_hist (gamma_modified_UNIFAC K) (mkH arrays results a) ops in
+             snd R = snd S /\ h_arrays (fst R) = fst (fst S) /\ h_results (fst R) = snd (fst S)).
+Proof. intros A K arrays results ops. split; intros a; apply (wrapper_history K). Qed.
 Print Assumptions C16_f_eq_call_history.
+
+(* in the specification the composition arrays are touched by HSet only *)
+Theorem C16_history_arrays_only_caller_writes : forall A I (f : wfun (A:=A) (I:=I)) a ops arrays results,
+  fst (fst (spec_hist f a (arrays, results) ops)) =
+  fold_left (fun arr o => match o with HSet r v => upd arr r v | _ => arr end) ops arrays.
+Proof. intros A I f a ops arrays results. apply spec_hist_arrays. Qed.
+Print Assumptions C16_history_arrays_only_caller_writes.
+
+(* ideal object (IdealActivityCoefficients and the fallback of __new__): over every history of calls, .f calls
+   and in-place rewrites of previously returned arrays, every call answers ones *)
+Theorem C16_ideal_one_history : forall A (K : KOps A) ops results,
+  Forall (fun o => match o with
+                   | None => True
+                   | Some (FScalar v) => v = kq K 1
+                   | Some (FArray g) => forall i, nth i g (kq K 1) = kq K 1
+                   end) (snd (run_ideal_hist K results ops)).
+Proof. intros A K ops results. apply (ideal_hist_ones K). Qed.
+Print Assumptions C16_ideal_one_history.
 
 (* the object __new__ hands out (ideal fallback included): obj(x, T) and obj.f(x, T, *obj.args) agree *)
 Theorem C16_obj_f_eq_call : forall A I (K : KOps A) (o : gobj (A:=A) (I:=I)) x T g xa,
